@@ -250,7 +250,9 @@ func (n *stubNet) probe(b *stubBackend, r *http.Request) (*http.Response, error)
 	b.lastProbe = n.x.Now()
 	pm, slow := b.probeMode, b.probeSlow
 	n.mu.Unlock()
-	n.ev("probe", 0, b.name, 0, pm)
+	// (the event carries how slow THIS probe is, in ms: the endpoint's behaviour may be changed
+	// again before an oracle gets to look at the event)
+	n.ev("probe", 0, b.name, int(slow/time.Millisecond), pm)
 	if pm == "slow" {
 		select {
 		case <-r.Context().Done():
